@@ -22,6 +22,11 @@ static uint32_t ref_sum32(const uint8_t *d, size_t n, uint32_t h) { for (size_t 
 // callbacks handed to the library
 static uint16_t cb_crc16(const unsigned char *d, size_t n, uint16_t init) { return ufw_crc16_arc(init, d, n); }   // real library CRC
 static uint32_t cb_sum32(const unsigned char *d, size_t n, uint32_t init) { return ref_sum32(d, n, init); }       // harness 32-bit sum
+// two more 32-bit algorithms whose results differ in one half only: every image has the same lower (upper) sixteen bits
+static uint32_t ref_sum32_upper(const uint8_t *d, size_t n, uint32_t h) { for (size_t i = 0; i < n; ++i) h += ((uint32_t)d[i] * 31u + 7u) << 16; return h; }
+static uint32_t ref_sum32_lower(const uint8_t *d, size_t n, uint32_t h) { uint32_t lo = h & 0xffffu; for (size_t i = 0; i < n; ++i) lo = (lo * 31u + d[i] + 1u) & 0xffffu; return (h & 0xffff0000u) | lo; }
+static uint32_t cb_sum32_upper(const unsigned char *d, size_t n, uint32_t init) { return ref_sum32_upper(d, n, init); }
+static uint32_t cb_sum32_lower(const unsigned char *d, size_t n, uint32_t init) { return ref_sum32_lower(d, n, init); }
 
 // ---------------------------------------------------------------- simulated medium
 struct Access { bool write; uint32_t addr; size_t len; size_t done; };
@@ -78,10 +83,10 @@ static size_t med_write(uint32_t addr, const void *src, size_t n) { return g_med
 struct Config {
     size_t N = 8; uint32_t place = 0; int ck = 0; uint32_t init = 0; int64_t aux = -1;
     std::vector<int64_t> setup;   // configuration history before the effective calls: 1 sum16(crc), 2 sum32, 3 place(elsewhere), 4 buffer(other size), 5 place(final)
-    size_t cks() const { return ck == 2 ? 4 : 2; }
+    size_t cks() const { return ck >= 2 ? 4 : 2; }
     void load(const Json &j) {
         int64_t n = j.geti("size", 8); if (n < 1) n = 1; if (n > 140000) n = 140000; N = (size_t)n;
-        ck = (int)(j.geti("ck") % 3); if (ck < 0) ck = 0;
+        ck = (int)(j.geti("ck") % 5); if (ck < 0) ck = 0;   // 0 trivial 16-bit, 1 CRC-16/ARC, 2 32-bit mixing sum, 3 / 4 32-bit sums that only ever change their upper / lower half
         // the region (checksum + data) has to fit below 2^32; a placement beyond that is moved down so that the region ends exactly at the top
         int64_t p = j.geti("place"); if (p < 0) p = 0; { int64_t maxp = 0x100000000ll - (int64_t)(N + cks()); if (p > maxp) p = maxp; } place = (uint32_t)p;
         init = ck == 0 ? 0 : (uint32_t)j.geti("init");
@@ -90,7 +95,7 @@ struct Config {
         for (size_t i = 0; i < sj.size() && i < 8; ++i) { int64_t st = sj.ati(i); if (ck == 0 && (st == 1 || st == 2)) continue; /* the default trivial sum cannot be re-selected */ setup.push_back(st); }
     }
     uint32_t ref(const uint8_t *d, size_t n) const {
-        switch (ck) { case 0: return ref_trivial(d, n, (uint16_t)init); case 1: return ref_crc16arc(d, n, (uint16_t)init); default: return ref_sum32(d, n, init); }
+        switch (ck) { case 0: return ref_trivial(d, n, (uint16_t)init); case 1: return ref_crc16arc(d, n, (uint16_t)init); case 3: return ref_sum32_upper(d, n, init); case 4: return ref_sum32_lower(d, n, init); default: return ref_sum32(d, n, init); }
     }
 };
 
@@ -117,7 +122,7 @@ struct Store {
         bool place_first = cf.setup.empty() || (cf.setup[0] & 1);
         if (place_first && !placed_last) persistent_place(&ps, cf.place);
         if (cf.ck == 1) persistent_sum16(&ps, cb_crc16, (uint16_t)cf.init);
-        else if (cf.ck == 2) persistent_sum32(&ps, cb_sum32, cf.init);
+        else if (cf.ck >= 2) persistent_sum32(&ps, cf.ck == 3 ? cb_sum32_upper : (cf.ck == 4 ? cb_sum32_lower : cb_sum32), cf.init);
         (void)summed;
         if (!place_first && !placed_last) persistent_place(&ps, cf.place);
         if (cf.aux >= 0) { aux.reset(new GuardedBlock((size_t)cf.aux)); persistent_buffer(&ps, aux->p, (size_t)cf.aux); }
@@ -174,7 +179,7 @@ struct PsHarness : Harness {
         int64_t N = t.thorough() ? (r.chance(1, 6) ? r.range(25, 300) : r.range(1, 40)) : r.range(1, 24);
         c["size"] = (long long)N;
         c["place"] = (long long)(r.chance(1, 2) ? 0 : (r.chance(1, 4) ? (r.chance(1, 3) ? 0xffffffffll : 0xffff0000ll - r.range(0, 3) * 4096) : r.range(1, 5000)));
-        c["ck"] = (long long)r.below(3);
+        c["ck"] = (long long)(r.chance(1, 5) ? 3 + r.below(2) : r.below(3));
         c["init"] = (long long)(r.chance(1, 2) ? 0 : (r.chance(1, 2) ? 0xffff : r.range(0, 0xffffffffll)));
         int64_t aux;
         switch (r.below(8)) { case 0: aux = -1; break; case 1: aux = 0; break; case 2: aux = 1; break; case 3: aux = N - 1; break; case 4: aux = N; break; case 5: aux = N + 1; break; default: aux = r.range(0, N + 1); }
@@ -309,7 +314,7 @@ struct PsHarness : Harness {
         World W(c); W.setup(plan);
         const Config &cf = W.cf;
         Bytes pristine = W.med.mem;
-        { bool s16 = false, s32 = false; for (auto st : cf.setup) { if (st == 1) s16 = true; if (st == 2) s32 = true; } if ((s32 && cf.ck == 1) || (s16 && cf.ck == 2)) COUNT("probe.reconfigured_checksum_width"); if (cf.setup.empty() || (cf.setup[0] & 1)) COUNT("probe.placed_before_checksum_selection"); }
+        { bool s16 = false, s32 = false; for (auto st : cf.setup) { if (st == 1) s16 = true; if (st == 2) s32 = true; } if ((s32 && cf.ck == 1) || (s16 && cf.ck >= 2)) COUNT("probe.reconfigured_checksum_width"); if (cf.setup.empty() || (cf.setup[0] & 1)) COUNT("probe.placed_before_checksum_selection"); }
         if (cf.aux == 0) COUNT("probe.aux_size_0"); else if (cf.aux == 1) COUNT("probe.aux_size_1");
         else if (cf.aux == (int64_t)cf.N - 1) COUNT("probe.aux_size_N_minus_1"); else if (cf.aux == (int64_t)cf.N) COUNT("probe.aux_size_N"); else if (cf.aux == (int64_t)cf.N + 1) COUNT("probe.aux_size_N_plus_1");
         const Json &ops = plan.get("ops");
